@@ -19,6 +19,20 @@ class MachineryError(Exception):
     """The verification machinery itself failed (exit code 2), not the property."""
 
 
+def sweep_scratch(max_age_s: int = 3 * 3600):
+    """Remove scratch directories left behind by runs that were killed (older than max_age_s)."""
+    if not os.path.isdir(SCRATCH):
+        return
+    now = time.time()
+    for name in os.listdir(SCRATCH):
+        p = os.path.join(SCRATCH, name)
+        try:
+            if os.path.isdir(p) and now - os.path.getmtime(p) > max_age_s:
+                shutil.rmtree(p, ignore_errors=True)
+        except OSError:
+            pass
+
+
 def scratch_dir(prefix: str) -> str:
     os.makedirs(SCRATCH, exist_ok=True)
     return tempfile.mkdtemp(prefix=prefix + "-", dir=SCRATCH)
@@ -71,6 +85,7 @@ def run_tlc(
     The spec directory is copied to a scratch dir so parallel runs do not share TLC metadata.
     """
     work = scratch_dir(f"tlc-{module}")
+    done = False
     try:
         for fn in os.listdir(SPECS):
             if fn.endswith(".tla") or fn.endswith(".cfg"):
@@ -148,9 +163,10 @@ def run_tlc(
             tail = "\n".join(out.splitlines()[-40:])
             raise MachineryError(f"TLC failed on {module}/{cfg_name} (rc={proc.returncode}):\n{tail}")
         res._work = work  # type: ignore[attr-defined]
+        done = True
         return res
     finally:
-        if not keep_dir:
+        if not keep_dir or not done:
             shutil.rmtree(work, ignore_errors=True)
 
 
